@@ -52,6 +52,8 @@ def quick_instance_corpus(seed):
                 if s.repr not in ("i16",):
                     continue
             out.append(s)
+        elif "randcfg" in pats:
+            out.append(s)
         elif pats & {"h_neg_later", "h_lo_start", "g_hi", "rand"}:
             if "ALL_TABLE" in pats or "ALL_AUTO" in pats or "rand" in pats:
                 out.append(s)
